@@ -12,7 +12,7 @@ from vf.sim.drive import SCase, outcome_maps, run_async
 
 PROP_ID = 'C43'
 LEVEL = 'exploration'
-BUDGET = {'quick': 400, 'thorough': 10000}
+BUDGET = {'quick': 400, 'thorough': 8000}
 MANIFEST = {
     'engine': 'S',
     'technique': 'stateful model-based PBT on the stepped scheduler: stop '
@@ -535,6 +535,9 @@ async def _check(case, ctx: Ctx) -> CaseResult:
                 if not sim.running:
                     break
             await run_schedule_ext(sc, [step])
+            if step[0] == 'stop-clean' and sim.running:
+                # the scheduler iterates once before any job gets further
+                await sc.drv.loop()
         for rnd in range(3):
             await sc.drain()
             if sim.running or sim.crashed is not None or rnd == 2 \
